@@ -83,7 +83,8 @@ const char *g_msg_fmt;
 #define F_THREAD(f)                                                                                                    \
     ((f)[0] == ']' && (f)[1] == ' ' && (f)[2] == '[' && (f)[3] == '%' && (f)[4] == 's' && (f)[5] == ']' && (f)[6] == ' ' && (f)[7] == 0)
 #define F_SUBJ(f) ((f)[0] == '[' && (f)[1] == '%' && (f)[2] == 's' && (f)[3] == ']' && (f)[4] == 0)
-#define F_ID(f) (F_LEVEL(f) ? 1u : F_THREAD(f) ? 3u : F_SUBJ(f) ? 4u : F_SEP(f) ? 5u : F_NL(f) ? 7u : 0u)
+/* (no ?: here: ternaries are not allowed in assigns-clause conditions; the five tests are mutually exclusive) */
+#define F_ID(f) (1u * F_LEVEL(f) + 3u * F_THREAD(f) + 4u * F_SUBJ(f) + 5u * F_SEP(f) + 7u * F_NL(f))
 #define P_TIMESTAMP 2u
 #define P_MESSAGE 6u
 
@@ -92,19 +93,39 @@ const char *g_msg_fmt;
 /* every piece starts where the text stored so far ends (on its terminator): no gap, no overlap */
 #define PIECE_STARTS_AT_END(p) (g_fmt_on && (g_strict || !g_trunc) ==> POFF(p) == g_end)
 
+/* Oracle ("prophecy") ghosts: the harness chooses, before the call, the length every piece's complete text will have
+ * (g_L[piece], any int; negative = the call fails) and the outcome of the timestamp conversion (g_dlen characters, or
+ * failure g_derr).  They are unconstrained, so every behaviour of the callees is covered, and they make the bytes a
+ * callee stores expressible in the pre-state: the assigns clauses name exactly the bytes the proof looks at (the
+ * terminator, the witness byte g_w, the newline) instead of havocking a range of symbolic length (which costs minutes
+ * in the SAT back end).  The other text bytes keep their arbitrary initial value; the unit under proof never reads the
+ * line buffer, it only passes pointers into it.  That the whole range [s, s+n) handed to a callee lies inside the line
+ * buffer is demanded by LINE_RANGE (same object as the line buffer + w_ok). */
+int g_L[8];
+size_t g_dlen;
+bool g_derr;
+const char *g_line; /* == fd->log_line_buffer (requires of aws_format_standard_log_line) */
+
+#define LINE_RANGE(s, n) ((n) == 0 || (__CPROVER_w_ok((s), (n)) && (g_fmt_on ==> __CPROVER_same_object((s), g_line))))
+#define WITNESS_IN(s, k) (g_w >= POFF(s) && g_w - POFF(s) < (k))
+
 #ifdef VERIF_HOOK_SNPRINTF
+/* g_L[5] == 3 and g_L[7] == 1 (formats without conversions yield their own length) is a requires of the caller */
+#    define L_OF(fmt) (g_L[F_ID(fmt)])
 int verif_snprintf(char *s, size_t n, const char *fmt)
-__CPROVER_requires(n == 0 || __CPROVER_w_ok(s, n))
 __CPROVER_requires(fmt != NULL && F_ID(fmt) != 0 && "one of the five formats of the standard log line")
+__CPROVER_requires(LINE_RANGE(s, n))
 __CPROVER_requires(PIECE_STARTS_AT_END(s))
-__CPROVER_assigns(n > 0 : __CPROVER_object_upto(s, n))
+__CPROVER_assigns(n > 0 && L_OF(fmt) >= 0 && (size_t)L_OF(fmt) < n - 1 : s[L_OF(fmt)])
+__CPROVER_assigns(n > 0 && L_OF(fmt) >= 0 && (size_t)L_OF(fmt) >= n - 1 : s[n - 1])
+__CPROVER_assigns(n > 0 && L_OF(fmt) >= 0 && WITNESS_IN(s, (size_t)L_OF(fmt)) && WITNESS_IN(s, n - 1) : s[g_w - POFF(s)])
+__CPROVER_assigns(n >= 2 && F_NL(fmt) : s[0])
 __CPROVER_assigns(g_end, g_trunc, g_err, g_pieces)
 /* result */
-__CPROVER_ensures(F_NL(fmt) ==> RET == 1)
-__CPROVER_ensures(F_SEP(fmt) ==> RET == 3)
-/* stored text: terminator, no NUL before it (witness), literal formats are copied */
+__CPROVER_ensures(RET == L_OF(fmt))
+/* stored text: terminator, no NUL before it (witness), "\n" is copied */
 __CPROVER_ensures(n > 0 && RET >= 0 ==> s[STORED(RET, n)] == 0)
-__CPROVER_ensures(n > 0 && RET >= 0 && g_w >= POFF(s) && g_w - POFF(s) < STORED(RET, n) ==> s[g_w - POFF(s)] != 0)
+__CPROVER_ensures(n > 0 && RET >= 0 && WITNESS_IN(s, STORED(RET, n)) ==> s[g_w - POFF(s)] != 0)
 __CPROVER_ensures(F_NL(fmt) && n >= 2 ==> s[0] == '\n')
 /* ghost bookkeeping */
 __CPROVER_ensures(g_err == (OLD(g_err) || RET < 0))
@@ -118,12 +139,15 @@ __CPROVER_ensures(!(n > 0 && RET >= 0) ==> g_end == OLD(g_end))
 #endif
 
 int vsnprintf(char *s, size_t n, const char *fmt, va_list ap)
-__CPROVER_requires(n == 0 || __CPROVER_w_ok(s, n))
+__CPROVER_requires(LINE_RANGE(s, n))
 __CPROVER_requires(PIECE_STARTS_AT_END(s))
-__CPROVER_assigns(n > 0 : __CPROVER_object_upto(s, n))
+__CPROVER_assigns(n > 0 && g_L[P_MESSAGE] >= 0 && (size_t)g_L[P_MESSAGE] < n - 1 : s[g_L[P_MESSAGE]])
+__CPROVER_assigns(n > 0 && g_L[P_MESSAGE] >= 0 && (size_t)g_L[P_MESSAGE] >= n - 1 : s[n - 1])
+__CPROVER_assigns(n > 0 && g_L[P_MESSAGE] >= 0 && WITNESS_IN(s, (size_t)g_L[P_MESSAGE]) && WITNESS_IN(s, n - 1) : s[g_w - POFF(s)])
 __CPROVER_assigns(g_end, g_trunc, g_err, g_pieces, g_msg_fmt)
+__CPROVER_ensures(RET == g_L[P_MESSAGE])
 __CPROVER_ensures(n > 0 && RET >= 0 ==> s[STORED(RET, n)] == 0)
-__CPROVER_ensures(n > 0 && RET >= 0 && g_w >= POFF(s) && g_w - POFF(s) < STORED(RET, n) ==> s[g_w - POFF(s)] != 0)
+__CPROVER_ensures(n > 0 && RET >= 0 && WITNESS_IN(s, STORED(RET, n)) ==> s[g_w - POFF(s)] != 0)
 __CPROVER_ensures(g_err == (OLD(g_err) || RET < 0))
 __CPROVER_ensures(g_trunc == (OLD(g_trunc) || (RET >= 0 && (size_t)RET >= n)))
 __CPROVER_ensures(g_pieces == OLD(g_pieces) * 8 + P_MESSAGE)
@@ -141,21 +165,22 @@ __CPROVER_assigns(*dt)
 __CPROVER_ensures(1)
 ;
 
+#define D_OK(ob) (!g_derr && g_dlen >= 1 && g_dlen <= AWS_DATE_TIME_STR_MAX_LEN && g_dlen < (ob)->capacity - (ob)->len)
 int aws_date_time_to_utc_time_str(const struct aws_date_time *dt, enum aws_date_format fmt, struct aws_byte_buf *output_buf)
 __CPROVER_requires(__CPROVER_r_ok(dt, sizeof(*dt)))
 __CPROVER_requires(__CPROVER_rw_ok(output_buf, sizeof(*output_buf)))
 __CPROVER_requires(output_buf->len <= output_buf->capacity)
-__CPROVER_requires(output_buf->capacity == output_buf->len ||
-                   __CPROVER_w_ok(output_buf->buffer + output_buf->len, output_buf->capacity - output_buf->len))
+__CPROVER_requires(LINE_RANGE(output_buf->buffer + output_buf->len, output_buf->capacity - output_buf->len))
 __CPROVER_requires(output_buf->capacity > output_buf->len ==> PIECE_STARTS_AT_END(output_buf->buffer + output_buf->len))
-__CPROVER_assigns(output_buf->len)
-__CPROVER_assigns(output_buf->capacity > output_buf->len
-                  : __CPROVER_object_upto(output_buf->buffer + output_buf->len, output_buf->capacity - output_buf->len))
+__CPROVER_assigns(D_OK(output_buf) : output_buf->len, output_buf->buffer[output_buf->len + g_dlen])
+__CPROVER_assigns(D_OK(output_buf) && g_w >= POFF(output_buf->buffer) + output_buf->len &&
+                  g_w < POFF(output_buf->buffer) + output_buf->len + g_dlen : output_buf->buffer[g_w - POFF(output_buf->buffer)])
 __CPROVER_assigns(g_end, g_err, g_pieces)
 __CPROVER_ensures(RET == AWS_OP_SUCCESS || RET == AWS_OP_ERR)
+__CPROVER_ensures((RET == AWS_OP_SUCCESS) == (!g_derr && g_dlen >= 1 && g_dlen <= AWS_DATE_TIME_STR_MAX_LEN &&
+                                             g_dlen < output_buf->capacity - OLD(output_buf->len)))
 __CPROVER_ensures(RET != AWS_OP_SUCCESS ==> output_buf->len == OLD(output_buf->len))
-__CPROVER_ensures(RET == AWS_OP_SUCCESS ==> output_buf->len > OLD(output_buf->len) && output_buf->len < output_buf->capacity &&
-                  output_buf->len - OLD(output_buf->len) <= AWS_DATE_TIME_STR_MAX_LEN)
+__CPROVER_ensures(RET == AWS_OP_SUCCESS ==> output_buf->len == OLD(output_buf->len) + g_dlen)
 __CPROVER_ensures(RET == AWS_OP_SUCCESS ==> output_buf->buffer[output_buf->len] == 0)
 __CPROVER_ensures(RET == AWS_OP_SUCCESS && g_w >= POFF(output_buf->buffer) + OLD(output_buf->len) &&
                   g_w < POFF(output_buf->buffer) + output_buf->len ==> output_buf->buffer[g_w - POFF(output_buf->buffer)] != 0)
@@ -214,6 +239,8 @@ int aws_format_standard_log_line(struct aws_logging_standard_formatting_data *fd
 __CPROVER_requires(__CPROVER_is_fresh(fd, sizeof(*fd)))
 __CPROVER_requires(fd->total_length == 0 || __CPROVER_is_fresh(fd->log_line_buffer, fd->total_length))
 __CPROVER_requires(g_fmt_on && g_end == 0 && !g_trunc && !g_err && g_pieces == 0)
+__CPROVER_requires(g_L[5] == 3 && g_L[7] == 1)
+__CPROVER_requires(fd->total_length > 0 ==> g_line == fd->log_line_buffer)
 __CPROVER_assigns(fd->amount_written)
 __CPROVER_assigns(fd->total_length > 0 : __CPROVER_object_upto(fd->log_line_buffer, fd->total_length))
 __CPROVER_assigns(__CPROVER_object_whole(&tl_logging_thread_id))
